@@ -260,12 +260,22 @@ def run_gapcore(case):
             n_asm = len(r1.assemblies)
             picks = [int(x) for x in rng.permutation(n_asm)[:3]]
             base = {}
+            before = {k: r1.assemblies[k].active_region.name for k in picks}
             with drive.quiet():
                 r1.axial_step(r1.z[n0 + 1], r1.dz[n0], n0 + 1)
             for k in picks:
                 base[k] = record_fields(r1.assemblies[k])
+            # a step that ends with a change of axial region hands the NEW
+            # gap temperatures (already influenced by the neighbours' walls
+            # of this step) to the new region: legitimate coupling, not
+            # asserted
+            changed = {k: r1.assemblies[k].active_region.name != before[k]
+                       for k in picks}
             names = [a.name for a in r1.assemblies]
         for k in picks:
+            if changed[k]:
+                res.count('N3_skipped_step_ends_with_region_change')
+                continue
             with drive.scratch() as d2:
                 r2 = start(d2, n0)
                 adj = np.asarray(r2.core._asm_sc_adj[k])
